@@ -84,7 +84,7 @@ func genCall(r *rand.Rand, parts []partSpec, closed *bool, noSkip bool) callSpec
 		}
 		if r.Intn(8) == 0 && len(c.Plan) > 0 && len(c.NoCreate) == 0 {
 			// transient refusals of ListOffsets while the claim is opened
-			w := [][2]int{{0, 2}, {0, 2}, {2, 4}, {0, 4}, {0, 1}}[r.Intn(5)]
+			w := [][2]int{{0, 2}, {0, 2}, {2, 4}, {0, 4}}[r.Intn(4)]
 			k := "notleader"
 			if len(c.Plan) == 1 && r.Intn(3) == 0 {
 				k = "drop"
